@@ -305,6 +305,11 @@ pub fn run_case(servers: &mut Servers, f: &[&str]) -> String {
 
     // leftovers of an earlier conversation must not be attributed to this one
     while let Ok(Some(_)) = servers.server(kind).try_recv() {}
+    let c14 = field(f, "c14=").is_some();
+    if c14 {
+        crate::MAX_ALLOC.store(0, Ordering::SeqCst);
+        crate::LIB_PANICS.store(0, Ordering::SeqCst);
+    }
 
     let conn = servers.connect(kind);
     let peer = conn.local_addr_string();
@@ -393,7 +398,11 @@ pub fn run_case(servers: &mut Servers, f: &[&str]) -> String {
         if let Ok(Some(rq)) = r {
             let act = if idx < script.len() { &script[idx] } else { script.last().unwrap() };
             idx += 1;
-            reqs.push(handle(rq, act, &peer).text);
+            let r = std::panic::catch_unwind(std::panic::AssertUnwindSafe(|| handle(rq, act, &peer).text));
+            match r {
+                Ok(t) => reqs.push(t),
+                Err(_) => reqs.push("[PANIC-IN-HANDLER]".to_string()),
+            }
             continue;
         }
         if eof_seen.load(Ordering::SeqCst) {
@@ -438,5 +447,18 @@ pub fn run_case(servers: &mut Servers, f: &[&str]) -> String {
         }
     }
     let w = canon_dates_anywhere(&wire.lock().unwrap());
-    format!("n={} {}wire={} end={} stray={}", reqs.len(), reqs.iter().map(|r| format!("{} ", r)).collect::<String>(), hex(&w), end, stray)
+    let extra = if c14 {
+        // give a panicking or allocating server thread the time to get there
+        std::thread::sleep(Duration::from_millis(3));
+        let p = crate::LIB_PANICS.load(Ordering::SeqCst);
+        format!(
+            " maxalloc={} panics={}{}",
+            crate::MAX_ALLOC.load(Ordering::SeqCst),
+            p,
+            if p > 0 { format!(" panic={}", crate::LAST_PANIC.lock().map(|g| g.clone()).unwrap_or_default()) } else { String::new() }
+        )
+    } else {
+        String::new()
+    };
+    format!("n={} {}wire={} end={} stray={}{}", reqs.len(), reqs.iter().map(|r| format!("{} ", r)).collect::<String>(), hex(&w), end, stray, extra)
 }
